@@ -142,6 +142,7 @@ func normEmitterCall(n string) string {
 func checkC11(c *Ctx, r *Report) {
 	// a scope-less requirement is `[]` in both documents: the two libraries spell a nil list differently (null vs []) (shared with C04.c)
 	defer checkScopesNeverNil(c, r, "C11.e")
+	defer checkEmbeddingDecision(c, r, "C11.c")
 	w := c.W
 	r.NotDecided = append(r.NotDecided, "equality of the serialised documents (two third-party object models marshal them)", "value-level agreement of the type-string to schema mapping")
 	r.Assume = append(r.Assume, "functions are paired by name (plus the five renamed pairs listed in the checker); a new emitter function without a sibling is reported")
